@@ -6,6 +6,8 @@ import (
 	"go/token"
 	"go/types"
 	"strings"
+
+	"golang.org/x/tools/go/packages"
 )
 
 // C06 root marking, lookup form (added after a seeded change rewrote the root section of DoPass): besides the
@@ -217,4 +219,349 @@ func funcLoopLeftEarly(info *types.Info, p *Prog, dp *ast.FuncDecl) (n int, prob
 		return true
 	})
 	return n, problems
+}
+
+// c06MarkNames finds the reachability mark by what the pass does with it: the field assigned a constant at the top of
+// the marking function is the mark field and that constant means "reachable"; the constant DoPass assigns to the same
+// field before marking starts means "not reached yet". Renaming the field or the constants does not move the rules.
+func c06MarkNames(info *types.Info, dp, mark *ast.FuncDecl) (field, marked, unmarked string) {
+	field, marked, unmarked = "color", "black", "white"
+	if mark == nil || mark.Body == nil {
+		return
+	}
+	for _, s := range mark.Body.List {
+		as, ok := s.(*ast.AssignStmt)
+		if !ok || len(as.Lhs) != 1 || len(as.Rhs) != 1 {
+			continue
+		}
+		se, ok := as.Lhs[0].(*ast.SelectorExpr)
+		if !ok {
+			continue
+		}
+		if k := constOfExpr(info, as.Rhs[0]); k.Name != "" {
+			field, marked = se.Sel.Name, k.Name
+			break
+		}
+	}
+	if dp != nil && dp.Body != nil {
+		ast.Inspect(dp.Body, func(n ast.Node) bool {
+			as, ok := n.(*ast.AssignStmt)
+			if !ok || len(as.Lhs) != 1 || len(as.Rhs) != 1 {
+				return true
+			}
+			if se, ok := as.Lhs[0].(*ast.SelectorExpr); ok && se.Sel.Name == field {
+				if k := constOfExpr(info, as.Rhs[0]); k.Name != "" && k.Name != marked {
+					unmarked = k.Name
+				}
+			}
+			return true
+		})
+	}
+	return
+}
+
+// rootViaPredicate: the third form of root marking — `if p.isRoot(fn) { p.markFuncReachable(p.funcs[fn.Name]) }` with
+// a predicate of the package that answers true under the comparison of the function's name with the root field.
+func rootViaPredicate(info *types.Info, pk *packages.Package, dp *ast.FuncDecl, root string) bool {
+	recvT, field := root[:strings.Index(root, ".")], root[strings.Index(root, ".")+1:]
+	preds := map[*types.Func]bool{}
+	for _, f := range pk.Syntax {
+		for _, d := range f.Decls {
+			fd, ok := d.(*ast.FuncDecl)
+			if !ok || fd.Body == nil || fd.Type.Results == nil || len(fd.Type.Results.List) != 1 {
+				continue
+			}
+			if t := info.TypeOf(fd.Type.Results.List[0].Type); t == nil || !types.Identical(t, types.Typ[types.Bool]) {
+				continue
+			}
+			rangeVars := map[types.Object]bool{}
+			ast.Inspect(fd.Body, func(n ast.Node) bool {
+				if rs, ok := n.(*ast.RangeStmt); ok {
+					if se, ok := rs.X.(*ast.SelectorExpr); ok && se.Sel.Name == field {
+						if sel, ok := info.Selections[se]; ok && namedTypeName(sel.Recv()) == recvT {
+							if id, ok := rs.Value.(*ast.Ident); ok && info.Defs[id] != nil {
+								rangeVars[info.Defs[id]] = true
+							}
+						}
+					}
+				}
+				return true
+			})
+			isRoot := func(e ast.Expr) bool {
+				switch x := ast.Unparen(e).(type) {
+				case *ast.SelectorExpr:
+					if x.Sel.Name == field {
+						if sel, ok := info.Selections[x]; ok && namedTypeName(sel.Recv()) == recvT {
+							return true
+						}
+					}
+				case *ast.Ident:
+					return rangeVars[info.Uses[x]]
+				}
+				return false
+			}
+			isFuncName := func(e ast.Expr) bool {
+				se, ok := ast.Unparen(e).(*ast.SelectorExpr)
+				if !ok || se.Sel.Name != "Name" {
+					return false
+				}
+				sel, ok := info.Selections[se]
+				return ok && namedTypeName(sel.Recv()) == "Func"
+			}
+			ast.Inspect(fd.Body, func(n ast.Node) bool {
+				ifs, ok := n.(*ast.IfStmt)
+				if !ok {
+					return true
+				}
+				mentions := false
+				ast.Inspect(ifs.Cond, func(m ast.Node) bool {
+					if be, ok := m.(*ast.BinaryExpr); ok && be.Op == token.EQL {
+						if (isFuncName(be.X) && isRoot(be.Y)) || (isFuncName(be.Y) && isRoot(be.X)) {
+							mentions = true
+						}
+					}
+					return true
+				})
+				if !mentions {
+					return true
+				}
+				for _, s := range ifs.Body.List {
+					if r, ok := s.(*ast.ReturnStmt); ok && len(r.Results) == 1 {
+						if id, ok := r.Results[0].(*ast.Ident); ok && id.Name == "true" {
+							if fo, ok := info.Defs[fd.Name].(*types.Func); ok {
+								preds[fo] = true
+							}
+						}
+					}
+				}
+				return true
+			})
+		}
+	}
+	if len(preds) == 0 {
+		return false
+	}
+	found := false
+	ast.Inspect(dp.Body, func(n ast.Node) bool {
+		ifs, ok := n.(*ast.IfStmt)
+		if !ok {
+			return true
+		}
+		call, ok := ast.Unparen(ifs.Cond).(*ast.CallExpr)
+		if !ok || !preds[CalleeOf(info, call)] {
+			return true
+		}
+		for _, c2 := range callsIn(info, ifs.Body.List) {
+			if f := CalleeOf(info, c2); f != nil && f.Name() == "markFuncReachable" {
+				found = true
+			}
+		}
+		return true
+	})
+	return found
+}
+
+// names of the reachability mark, resolved by c06MarkNames on every run
+var markField, markedName, unmarkedName = "color", "black", "white"
+
+func declOfFunc(pk *packages.Package, fn *types.Func) *ast.FuncDecl {
+	for _, f := range pk.Syntax {
+		for _, d := range f.Decls {
+			if fd, ok := d.(*ast.FuncDecl); ok && pk.TypesInfo.Defs[fd.Name] == fn {
+				return fd
+			}
+		}
+	}
+	return nil
+}
+
+// markTestOf classifies a condition as a test of the reachability mark: +1 "is marked reachable", -1 "is not marked",
+// 0 not a test of the mark. The mark may be an enumeration compared with its constants or a boolean tested directly.
+func markTestOf(info *types.Info, e ast.Expr) int {
+	e = ast.Unparen(e)
+	switch x := e.(type) {
+	case *ast.UnaryExpr:
+		if x.Op == token.NOT {
+			return -markTestOf(info, x.X)
+		}
+	case *ast.SelectorExpr:
+		if x.Sel.Name == markField {
+			if t := info.TypeOf(x); t != nil {
+				if b, ok := t.Underlying().(*types.Basic); ok && b.Info()&types.IsBoolean != 0 {
+					if markedName == "true" {
+						return +1
+					}
+					if markedName == "false" {
+						return -1
+					}
+				}
+			}
+		}
+	case *ast.BinaryExpr:
+		if x.Op != token.EQL && x.Op != token.NEQ {
+			return 0
+		}
+		sel, k := x.X, x.Y
+		if se, ok := ast.Unparen(sel).(*ast.SelectorExpr); !ok || se.Sel.Name != markField {
+			sel, k = x.Y, x.X
+		}
+		se, ok := ast.Unparen(sel).(*ast.SelectorExpr)
+		if !ok || se.Sel.Name != markField {
+			return 0
+		}
+		v := 0
+		switch constOfExpr(info, k).Name {
+		case markedName:
+			v = +1
+		case unmarkedName:
+			v = -1
+		}
+		if x.Op == token.NEQ {
+			v = -v
+		}
+		return v
+	}
+	return 0
+}
+
+// rootMentionFn returns a predicate "this expression compares the function's name with the root field" (directly or
+// through a range variable over the field), as rootMarked reads it.
+func rootMentionFn(info *types.Info, dp *ast.FuncDecl, root string) func(ast.Node) bool {
+	recvT, field := root[:strings.Index(root, ".")], root[strings.Index(root, ".")+1:]
+	rangeVars := map[types.Object]bool{}
+	ast.Inspect(dp.Body, func(n ast.Node) bool {
+		if rs, ok := n.(*ast.RangeStmt); ok {
+			if se, ok := rs.X.(*ast.SelectorExpr); ok && se.Sel.Name == field {
+				if id, ok := rs.Value.(*ast.Ident); ok && info.ObjectOf(id) != nil {
+					rangeVars[info.ObjectOf(id)] = true
+				}
+			}
+		}
+		return true
+	})
+	return func(e ast.Node) bool {
+		mentions := false
+		if e == nil {
+			return false
+		}
+		ast.Inspect(e, func(m ast.Node) bool {
+			be, ok := m.(*ast.BinaryExpr)
+			if !ok || be.Op != token.EQL {
+				return true
+			}
+			for _, pair := range [][2]ast.Expr{{be.X, be.Y}, {be.Y, be.X}} {
+				se, ok := ast.Unparen(pair[0]).(*ast.SelectorExpr)
+				if !ok || se.Sel.Name != "Name" {
+					continue
+				}
+				if sel, ok := info.Selections[se]; !ok || namedTypeName(sel.Recv()) != "Func" {
+					continue
+				}
+				switch o := ast.Unparen(pair[1]).(type) {
+				case *ast.SelectorExpr:
+					if o.Sel.Name == field {
+						if sel, ok := info.Selections[o]; ok && namedTypeName(sel.Recv()) == recvT {
+							mentions = true
+						}
+					}
+				case *ast.Ident:
+					if rangeVars[info.ObjectOf(o)] {
+						mentions = true
+					}
+				}
+			}
+			return true
+		})
+		return mentions
+	}
+}
+
+// rootViaFlag: the fourth form of root marking — a boolean local collects "this function is a root"
+// (`isRoot := fn.Name == p.m.Start`, `if fn.Name == v { isRoot = true }`) and one `if isRoot { mark }` follows. The
+// flag is only ever set (to true, to a comparison, or to itself || …) after its definition: a later `isRoot = false`
+// would forget a root and the form is then not recognised.
+func rootViaFlag(info *types.Info, dp *ast.FuncDecl, root string) bool {
+	mention := rootMentionFn(info, dp, root)
+	isBool := func(e ast.Expr) bool {
+		t := info.TypeOf(e)
+		if t == nil {
+			return false
+		}
+		b, ok := t.Underlying().(*types.Basic)
+		return ok && b.Info()&types.IsBoolean != 0
+	}
+	carries := map[types.Object]bool{}
+	spoiled := map[types.Object]bool{}
+	var walk func(n ast.Node, under bool)
+	walk = func(n ast.Node, under bool) {
+		ast.Inspect(n, func(m ast.Node) bool {
+			if m == nil || m == n {
+				return true
+			}
+			switch x := m.(type) {
+			case *ast.IfStmt:
+				if x.Init != nil {
+					walk(x.Init, under)
+				}
+				walk(x.Body, under || mention(x.Cond))
+				if x.Else != nil {
+					walk(x.Else, under)
+				}
+				return false
+			case *ast.AssignStmt:
+				if len(x.Lhs) != 1 || len(x.Rhs) != 1 {
+					return true
+				}
+				id, ok := x.Lhs[0].(*ast.Ident)
+				if !ok || !isBool(id) {
+					return true
+				}
+				obj := info.ObjectOf(id)
+				rhs := ast.Unparen(x.Rhs[0])
+				isTrue := types.ExprString(rhs) == "true"
+				selfOr := false
+				if be, ok := rhs.(*ast.BinaryExpr); ok && be.Op == token.LOR {
+					if l, ok := ast.Unparen(be.X).(*ast.Ident); ok && info.ObjectOf(l) == obj {
+						selfOr = true
+					}
+				}
+				switch {
+				case mention(rhs) && (x.Tok == token.DEFINE || selfOr):
+					carries[obj] = true
+				case isTrue && under:
+					carries[obj] = true
+				case isTrue, selfOr, x.Tok == token.DEFINE:
+					// sets only, or the definition
+				default:
+					spoiled[obj] = true
+				}
+			}
+			return true
+		})
+	}
+	walk(dp.Body, false)
+	found := false
+	ast.Inspect(dp.Body, func(n ast.Node) bool {
+		ifs, ok := n.(*ast.IfStmt)
+		if !ok {
+			return true
+		}
+		for _, cj := range conjuncts(ifs.Cond) {
+			id, ok := ast.Unparen(cj).(*ast.Ident)
+			if !ok {
+				continue
+			}
+			obj := info.ObjectOf(id)
+			if !carries[obj] || spoiled[obj] {
+				continue
+			}
+			for _, call := range callsIn(info, ifs.Body.List) {
+				if f := CalleeOf(info, call); f != nil && f.Name() == "markFuncReachable" {
+					found = true
+				}
+			}
+		}
+		return true
+	})
+	return found
 }
